@@ -186,4 +186,153 @@ theorem applyTxs_zip_inv (cfg : Cfg) (cache : KV (String × String) Svc) (hgt : 
           exact hq _ _ _ _ hgp hp)
     simpa using this
 
+theorem foldl_goRemove_sublist (R : List TxId) (start : List (Option TId)) :
+    (R.foldl (fun acc id => (goRemove acc (.single id)).getD acc) start).Sublist start := by
+  induction R generalizing start with
+  | nil => exact List.Sublist.refl _
+  | cons r rest ih =>
+    simp only [List.foldl_cons]
+    refine (ih _).trans ?_
+    cases hg : goRemove start (.single r) with
+    | none => exact List.Sublist.refl _
+    | some r' => exact goRemove_sublist start r' _ hg
+
+/-- an id the block takes off a list on which it occurs at most once is gone afterwards, whatever else the block takes off -/
+theorem foldl_goRemove_removes (R : List TxId) (start : List (Option TId)) (t : TxId)
+    (hc : start.count (some (TId.single t)) ≤ 1) (ht : t ∈ R) :
+    some (TId.single t) ∉ R.foldl (fun acc id => (goRemove acc (.single id)).getD acc) start := by
+  induction R generalizing start with
+  | nil => cases ht
+  | cons r rest ih =>
+    simp only [List.foldl_cons]
+    by_cases hr : r = t
+    · subst hr
+      rw [goRemove_count_le_one start (.single r) hc]
+      simp only [Option.getD_some]
+      intro hm
+      have hs := (foldl_goRemove_sublist rest (start.erase (some (TId.single r)))).count_le (some (TId.single r))
+      have h1 := List.count_erase_self (a := some (TId.single r)) (l := start)
+      have h2 := List.count_pos_iff.mpr hm
+      omega
+    · have ht' : t ∈ rest := by
+        rcases List.mem_cons.mp ht with h | h
+        · exact absurd h.symm hr
+        · exact h
+      apply ih _ _ ht'
+      cases hg : goRemove start (.single r) with
+      | none => exact hc
+      | some r' => exact Nat.le_trans ((goRemove_sublist start r' _ hg).count_le _) hc
+
+theorem count_map_single_of_not_mem (A : List TxId) (t : TxId) (h : t ∉ A) :
+    (A.map (fun t => some (TId.single t))).count (some (TId.single t)) = 0 := by
+  rw [List.count_eq_zero]
+  intro hm
+  obtain ⟨a, ha, e⟩ := List.mem_map.mp hm
+  cases e
+  exact h ha
+
+/-- an id that the block takes off the list of `d` and does not add to it, on a list that held it at most once, is not on
+that list after the block's bookkeeping -/
+theorem listAfter_unlisted (v : Option Val) (A R : List TxId) (lst : List (Option TId)) (t : TxId)
+    (hA : t ∉ A) (hR : t ∈ R) (hc : (curList v).count (some (TId.single t)) ≤ 1)
+    (e : listAfter v A R = some (.tlist lst)) : some (TId.single t) ∉ lst := by
+  unfold listAfter at e
+  simp only at e
+  have hR' : R ≠ [] := by intro h; rw [h] at hR; cases hR
+  rw [if_neg hR'] at e
+  cases e
+  intro hm
+  refine foldl_goRemove_removes R _ t ?_ hR (normList_mem_single _ t hm)
+  by_cases hAe : A = []
+  · rw [if_pos hAe]; exact hc
+  · rw [if_neg hAe]
+    show List.count (some (TId.single t)) (if curList v == [none] then A.map (fun t => some (TId.single t))
+      else curList v ++ A.map (fun t => some (TId.single t))) ≤ 1
+    by_cases hn : (curList v == [none]) = true
+    · rw [if_pos hn, count_map_single_of_not_mem A t hA]; exact Nat.zero_le _
+    · rw [if_neg hn, List.count_append, count_map_single_of_not_mem A t hA]; exact hc
+
+theorem curList_count (l : Led) (d : Nat) (t : TxId) : (curList (l.getS (.timeout d))).count (some (TId.single t)) = listCount l d t := by
+  unfold curList listCount
+  cases hv : l.getS (.timeout d) with
+  | none => simp
+  | some v =>
+    cases v <;> simp
+
+theorem applyTx_count (env : Env) (l : Led) (tx : Tx) (inv : Option String) (d : Nat) (t : TxId) :
+    listCount (applyTx env l tx inv).1 d t ≤ listCount l d t := by
+  have hs : listCount (txStart l) d t = listCount l d t := rfl
+  cases applyTx_effect env l tx inv with
+  | nothing h0 => rw [listCount_congr (h0 _), hs]; exact Nat.le_refl _
+  | ibtp s i p env' r _ _ _ _ h5 h6 => rw [listCount_congr (h6 _), ← hs]; exact (handleIBTP_stepsT h5).count d t
+  | bvm s c m args r _ h2 h3 => rw [listCount_congr (h3 _), ← hs]; exact (applyBvm_stepsT h2).count d t
+
+
+theorem applyTxs_count (cfg : Cfg) (cache : KV (String × String) Svc) (hgt : Nat) (l : Led) (txs : List (Tx × Bool)) (d : Nat) (t : TxId) :
+    listCount (applyTxs cfg cache hgt l txs).led d t ≤ listCount l d t := by
+  rw [applyTxs_eq]
+  suffices H : ∀ (ts : List (Tx × Bool)) (a : Acc), listCount (ts.foldl (txStep cfg cache hgt) a).led d t ≤ listCount a.led d t from H txs { led := l }
+  intro ts
+  induction ts with
+  | nil => intro a; exact Nat.le_refl _
+  | cons p rest ih =>
+    intro a
+    simp only [List.foldl_cons]
+    refine Nat.le_trans (ih _) ?_
+    unfold txStep
+    exact applyTx_count _ _ _ _ d t
+
+theorem mem_remsAt_of {d : Nat} {acts : List TOAct} {t : TxId} (h : TOAct.remove d t ∈ acts) : t ∈ remsAt d acts := by
+  unfold remsAt
+  exact List.mem_filterMap.mpr ⟨_, h, by simp⟩
+
+/-- **something that happens to the ledger during a block happened at one of its transactions**: if every transaction keeps
+`P0` or moves to `P1` while its (transaction, receipt) pair satisfies `Rel`, and `P1` is kept from then on, then after the block
+either `P0` still holds or `P1` holds and the block has such a pair -/
+theorem applyTxs_zip_exists (cfg : Cfg) (cache : KV (String × String) Svc) (hgt : Nat) (G : Tx → Prop) (P0 P1 : Led → Prop) (Rel : Tx → Rcpt → Prop)
+    (h0 : ∀ idx l tx inv, G tx → P0 l →
+      P0 (applyTx { cfg := cfg, cache := cache, height := hgt, txIndex := idx } l tx inv).1 ∨
+      (P1 (applyTx { cfg := cfg, cache := cache, height := hgt, txIndex := idx } l tx inv).1 ∧
+        Rel tx (applyTx { cfg := cfg, cache := cache, height := hgt, txIndex := idx } l tx inv).2.rcpt))
+    (h1 : ∀ idx l tx inv, G tx → P1 l → P1 (applyTx { cfg := cfg, cache := cache, height := hgt, txIndex := idx } l tx inv).1)
+    (l : Led) (hl : P0 l) (txs : List (Tx × Bool)) (hg : ∀ p ∈ txs, G p.1) :
+    P0 (applyTxs cfg cache hgt l txs).led ∨
+    (P1 (applyTxs cfg cache hgt l txs).led ∧ ∃ p ∈ (txs.map (·.1)).zip (applyTxs cfg cache hgt l txs).rcpts, Rel p.1 p.2) := by
+  rw [applyTxs_eq]
+  suffices H : ∀ (ts pre : List (Tx × Bool)) (a : Acc), (∀ p ∈ ts, G p.1) → a.rcpts.length = pre.length →
+      (P0 a.led ∨ (P1 a.led ∧ ∃ p ∈ (pre.map (·.1)).zip a.rcpts, Rel p.1 p.2)) →
+      (P0 (ts.foldl (txStep cfg cache hgt) a).led ∨
+       (P1 (ts.foldl (txStep cfg cache hgt) a).led ∧
+        ∃ p ∈ ((pre ++ ts).map (·.1)).zip (ts.foldl (txStep cfg cache hgt) a).rcpts, Rel p.1 p.2)) by
+    have := H txs [] { led := l } hg rfl (Or.inl hl)
+    simpa using this
+  intro ts
+  induction ts with
+  | nil => intro pre a _ _ h; simpa using h
+  | cons p rest ih =>
+    intro pre a hg hlen h
+    simp only [List.foldl_cons]
+    have hgp := hg p (List.mem_cons_self ..)
+    have hz : ((pre ++ [p]).map (·.1)).zip (txStep cfg cache hgt a p).rcpts =
+        (pre.map (·.1)).zip a.rcpts ++ [(p.1, (applyTx { cfg := cfg, cache := cache, height := hgt, txIndex := a.idx } a.led p.1
+          (if !p.2 then some "bad-sig" else match p.1 with
+            | .ibtp _ i pk => proofVerdict cfg i pk
+            | _ => none)).2.rcpt)] := by
+      unfold txStep
+      simp only [List.map_append, List.map_cons, List.map_nil]
+      rw [List.zip_append (by simp [hlen])]
+      rfl
+    have := ih (pre ++ [p]) (txStep cfg cache hgt a p) (fun q hq' => hg q (List.mem_cons_of_mem _ hq'))
+      (by unfold txStep; simp [hlen])
+      (by
+        rw [hz]
+        rcases h with h | ⟨h, q, hq, hr⟩
+        · rcases h0 a.idx a.led p.1 _ hgp h with h' | ⟨h', hr⟩
+          · left; unfold txStep; exact h'
+          · right
+            refine ⟨by unfold txStep; exact h', _, List.mem_append_right _ (List.mem_singleton.mpr rfl), hr⟩
+        · right
+          exact ⟨by unfold txStep; exact h1 _ _ _ _ hgp h, q, List.mem_append_left _ hq, hr⟩)
+    simpa using this
+
 end Bxh.Exec
